@@ -162,7 +162,10 @@ class MagicMemoryRTL( Component ):
 
       for i in range(nports):
 
-        if s.req_stalls[i].send.val:
+        # A request is processed in the cycle it is accepted by the response
+        # pipe (val & rdy); while the pipe is not ready the request stays
+        # valid and must not be executed again
+        if s.req_stalls[i].send.val & s.req_stalls[i].send.rdy:
 
           # Dequeue memory request message
 
